@@ -10,6 +10,8 @@ import PhyVerif.Spec.C11e
 import PhyVerif.Lemmas.C11e
 import PhyVerif.Lemmas.C11i
 import PhyVerif.Lemmas.C11k
+import PhyVerif.Model.C11l
+import PhyVerif.Lemmas.C11l
 /-!
 # C11 — merging probes conserves every spike and renumbers ids disjointly
 Only property theorems + non-vacuity examples; proofs in `Lemmas/C11.lean`.
@@ -215,6 +217,20 @@ theorem merge_raises_of_few_spikes (fs : FS) (subdirs : List String) (out : Stri
     (hfew : v.length ≤ 1) : (merge fs subdirs out).2 ≠ none :=
   Lemmas.merge_raises_of_few_spikes fs subdirs out hout d hd v hv hfew
 
+/-- A `Merger` that has been used before merges as a fresh one: whatever its registers (`spike_order`,
+`cluster_offsets` / `cluster_counts`, `template_offsets`, `channel_index_offsets`) hold when `merge()` starts — the
+complete lists of an earlier merge, or the half-filled lists left by a `merge()` that RAISED inside a per-probe
+loop (e.g. `templates.npy` of a later probe not there yet, merge.py:150) — the call writes the same files and
+raises the same exception as `Merger(subdirs, out).merge()` of a new object on the same directories. Hence a
+merge retried on the same object after the input was repaired satisfies every other theorem of C11 / C12
+(`merge_ok_contents`, `inputs_untouched`, …) as the first merge of a new object does. No hypothesis on `reg0`,
+`fs`, `subdirs`, `out`. (The proof uses that `write_spike_clusters` and `write_channel_data` re-create their lists,
+merge.py:140-142, 199-203: `Lemmas.cSpikeClusters_sim`, `Lemmas.cChannelData_sim`.) -/
+theorem merge_again_as_fresh (reg0 : Reg) (fs : FS) (subdirs : List String) (out : String) :
+    (mergeFrom reg0 fs subdirs out).1.1 = (merge fs subdirs out).1.1 ∧
+    (mergeFrom reg0 fs subdirs out).2 = (merge fs subdirs out).2 :=
+  Lemmas.mergeFrom_as_fresh reg0 fs subdirs out
+
 /-! Non-vacuity of the later theorems -/
 example : (clusterProbes [[0, 2, 2], [4, 0], [1, 1]]).length = 10 ∧
     (mergedIds [[3, 5, 5], [1, 5], [5, 9]] [[0, 2, 2], [4, 0], [1, 1]]).foldl max 0 + 1 = 10 := by decide
@@ -234,6 +250,19 @@ example : (merge exampleFS ["a", "b"] "out").2 = none ∧
 -- the merge raises the assertion of merge.py:51, as the real code does
 example : (merge exampleFS ["a", "b"] "a").2 = some (.shape "spike_templates.npy") ∧
     (merge exampleFS ["a", "b"] "a").1.1.read ("a", "spike_times.npy") = some (.ints [3, 4, 5, 5]) := by decide +kernel
+-- `templates.npy` of probe "b" is not there yet: the merge raises inside the loop of `write_spike_clusters`; the file is
+-- copied in and the SAME Merger merges again: the files of a fresh merge of the repaired directories
+example :
+    let broken := exampleFS.filter fun e => !(e.1 == ("b", "templates.npy"))
+    let r := mergeRetry broken [(("b", "templates.npy"), .tmpl [[[5, 6]]])] ["a", "b"] "out"
+    r.1.2 = some (.notFound "b" "templates.npy") ∧
+    r.1.1.1.names "out" = ["spike_templates.npy", "amplitudes.npy", "spike_times.npy", "probes.description.tsv", "params.py"] ∧
+    r.2.2 = none ∧
+    (∀ n ∈ outputNames, r.2.1.1.read ("out", n) = (merge exampleFS ["a", "b"] "out").1.1.read ("out", n)) ∧
+    r.2.1.1.read ("out", "cluster_KSLabel.tsv") = some (.tsv [(0, 7)]) := by decide +kernel
+-- stale registers of any shape (here: probe lists of another length) are dropped
+example : (mergeFrom { order := [9, 9], clusters := [[5], [5], [5]], templateOffsets := [7, 7, 7], chanIndexOffsets := [3] }
+      exampleFS ["a", "b"] "out").1.1.read ("out", "template_feature_ind.npy") = some (.table [[0], [1]]) := by decide +kernel
 -- a spike-less probe: `ValueError` of `np.max`
 example : (merge (exampleProbe "a" [3, 5] [] ++ [(("b", "params.py"), .params 30000 2), (("b", "spike_times.npy"), .ints []),
       (("b", "amplitudes.npy"), .ints []), (("b", "spike_templates.npy"), .nats []), (("b", "spike_clusters.npy"), .nats [])])
